@@ -13,7 +13,12 @@ equivalent one in which those choices are undone:
   N4  `acc = []` followed by `for t in it: [if c:] acc.append(e)` becomes a list comprehension;
   N5  zip(t1, t2, ...) of literal tuples (or single-assignment locals bound to them) becomes the literal tuple of rows;
   N6  `d = {k: v for t in <literal> if c}` becomes `d = {}` followed by the (then unrolled) loop of guarded item stores;
-  N7  `x = a if c else b`, `return a if c else b` (a conditional expression as the whole value) become if/else statements.
+  N7  `x = a if c else b`, `return a if c else b` (a conditional expression as the whole value) become if/else statements;
+  N8  `x = {k1: v1, ...}.get(e[, d])` / `{...}[e]` over a literal table (or a single-assignment local bound to one) becomes the
+      if/elif chain on e == k1, ...;
+  N1 also covers closures (a function defined inside the analysed function and called there), static methods reached through
+  self / the class name, and helpers with *args / **kwargs parameters (bound to the tuple / dict display of the extra arguments;
+  a `*display` / `**display` in a call is spliced back into plain arguments).
 
 A helper is never inlined when a rule names it (the protect set: every identifier that occurs in a string constant of the
 rule sources), when a subclass overrides it (dynamic dispatch could pick another body), when it is a generator, has
@@ -172,6 +177,18 @@ def _relocate(nodes, at):
     return nodes
 
 
+class _Closure:
+    """a function defined inside the function being normalised (free variables are the enclosing function's own locals)"""
+    kind = 'closure'
+    cls = None
+
+    def __init__(self, node, outer):
+        self.name = node.name
+        self._node = node
+        self.module = outer.module
+        self.qualname = '%s.<locals>.%s' % (outer.qualname, node.name)
+
+
 class Normalizer:
     def __init__(self, prog, protect=None):
         self.prog = prog
@@ -191,14 +208,11 @@ class Normalizer:
 
     def _eligible0(self, f):
         node = f.node if not hasattr(f, '_node') else f._node
-        if f.name in self.protect or (f.name.startswith('__') and f.name.endswith('__')):
+        if (f.name in self.protect and f.kind != 'closure') or (f.name.startswith('__') and f.name.endswith('__')):
             return None
-        if f.kind not in ('function', 'method'):
+        if f.kind not in ('function', 'method', 'static', 'closure'):
             return None
-        if not all(_deco_ok(d) for d in node.decorator_list):
-            return None
-        a = node.args
-        if a.vararg or a.kwarg:
+        if not all(_deco_ok(d) or (f.kind == 'static' and isinstance(d, ast.Name) and d.id == 'staticmethod') for d in node.decorator_list):
             return None
         n_st = 0
         for n in ast.walk(node):
@@ -234,6 +248,14 @@ class Normalizer:
             return None
         fn = call.func
         outer = ctx['outer']
+        if isinstance(fn, ast.Name) and fn.id in ctx.get('closures', {}):
+            cl = ctx['closures'][fn.id]
+            if cl.name in ctx['stack']:
+                return None
+            node = self._eligible(cl)
+            if node is None:
+                return None
+            return cl, node, None
         if isinstance(fn, ast.Name):
             if fn.id in ctx['locals']:
                 return None
@@ -247,7 +269,7 @@ class Normalizer:
         if isinstance(fn, ast.Attribute) and isinstance(fn.value, ast.Name) and ctx['self'] \
                 and fn.value.id == ctx['self'] and outer.cls is not None:
             m = self.prog.find_method(outer.cls, fn.attr)
-            if m is None or m is outer or m.name in ctx['stack'] or m.kind != 'method':
+            if m is None or m is outer or m.name in ctx['stack'] or m.kind not in ('method', 'static'):
                 return None
             if not m.name.startswith('_'):
                 return None       # public methods are interface, not helpers
@@ -258,7 +280,19 @@ class Normalizer:
             node = self._eligible(m)
             if node is None:
                 return None
-            return m, node, fn.value
+            return m, node, (fn.value if m.kind == 'method' else None)
+        if isinstance(fn, ast.Attribute) and isinstance(fn.value, ast.Name) and outer.cls is not None and fn.value.id not in ctx['locals'] \
+                and fn.value.id in {k.name for k in outer.cls.mro()}:
+            # ClassName._helper(...): a static method of the class (or of a base) named explicitly
+            k = [k for k in outer.cls.mro() if k.name == fn.value.id][0]
+            m = k.methods.get(fn.attr)
+            if m is None or m is outer or m.name in ctx['stack'] or m.kind != 'static' or not m.name.startswith('_') \
+                    or m.module is not outer.module:
+                return None
+            node = self._eligible(m)
+            if node is None:
+                return None
+            return m, node, None
         return None
 
     # ------------------------------------------------------------------ inlining
@@ -275,23 +309,50 @@ class Normalizer:
         if receiver is not None:
             pos = [receiver] + pos
         if len(pos) > len(params):
-            raise NotInlinable('too many positional arguments')
+            if a.vararg is None:
+                raise NotInlinable('too many positional arguments')
+            bound[a.vararg.arg] = ast.Tuple(elts=pos[len(params):], ctx=ast.Load())
+            pos = pos[:len(params)]
+        elif a.vararg is not None:
+            bound[a.vararg.arg] = ast.Tuple(elts=[], ctx=ast.Load())
         for p, v in zip(params, pos):
             bound[p] = v
+        extra = []
         for k in call.keywords:
-            if k.arg in bound or k.arg not in params + kwonly:
+            if k.arg in bound:
                 raise NotInlinable('keyword')
+            if k.arg not in params + kwonly:
+                if a.kwarg is None:
+                    raise NotInlinable('keyword')
+                extra.append(k)
+                continue
             bound[k.arg] = k.value
+        if a.kwarg is not None:
+            bound[a.kwarg.arg] = ast.Dict(keys=[ast.Constant(value=k.arg) for k in extra], values=[k.value for k in extra])
         for p in params + kwonly:
             if p not in bound:
                 if p not in defaults:
                     raise NotInlinable('missing argument')
+                if not is_stable(defaults[p]):
+                    raise NotInlinable('default value is evaluated once, at definition time')
                 bound[p] = defaults[p]
         return bound
 
-    def _body_of(self, callee, node, call, receiver):
+    def _body_of(self, callee, node, call, receiver, caller_locals=()):
         """-> (prelude statements, renamed body statements)"""
         bound = self._bind(callee, node, call, receiver)
+        # name capture: a global the helper reads must not be shadowed by a local of the function it is inlined into
+        hl = set()
+        for n in ast.walk(node):
+            if isinstance(n, ast.Name) and isinstance(n.ctx, (ast.Store, ast.Del)):
+                hl.add(n.id)
+            elif isinstance(n, ast.arg):
+                hl.add(n.arg)
+            elif isinstance(n, ast.ExceptHandler) and n.name:
+                hl.add(n.name)
+        free = {n.id for n in ast.walk(node) if isinstance(n, ast.Name) and isinstance(n.ctx, ast.Load)} - hl
+        if callee.kind != 'closure' and free & set(caller_locals):
+            raise NotInlinable('a global read by the helper is shadowed in the caller: %s' % sorted(free & set(caller_locals))[:2])
         self.counter += 1
         tagn = self.counter
         stored = set()
@@ -310,8 +371,25 @@ class Normalizer:
             if isinstance(n, ast.Name) and isinstance(n.ctx, ast.Load):
                 uses[n.id] = uses.get(n.id, 0) + 1
         subst, rename, prelude = {}, {}, []
+        star_params = {x.arg for x in (node.args.vararg, node.args.kwarg) if x is not None}
+        for p in star_params:
+            # only the forms f(*args) / f(**kwargs) can be spliced back
+            for n in ast.walk(node):
+                if isinstance(n, ast.Name) and n.id == p and isinstance(n.ctx, ast.Load):
+                    par_ok = False
+                    for q in ast.walk(node):
+                        if isinstance(q, ast.Starred) and q.value is n:
+                            par_ok = True
+                        if isinstance(q, ast.keyword) and q.arg is None and q.value is n:
+                            par_ok = True
+                    if not par_ok:
+                        raise NotInlinable('star parameter used as a value')
         for p, v in bound.items():
-            if p not in stored and (is_stable(v) or uses.get(p, 0) <= 1):
+            if p in star_params:
+                if p in stored:
+                    raise NotInlinable('star parameter re-bound')
+                subst[p] = v
+            elif p not in stored and (is_stable(v) or uses.get(p, 0) <= 1):
                 subst[p] = v
             else:
                 rename[p] = '%s__i%d' % (p, tagn)
@@ -325,6 +403,24 @@ class Normalizer:
             body = body[1:]
         tr = _Subst(subst, rename)
         body = [tr.visit(st) for st in body]
+        if star_params:
+            for st in body:
+                for n in ast.walk(st):
+                    if isinstance(n, ast.Call):
+                        na = []
+                        for x in n.args:
+                            if isinstance(x, ast.Starred) and isinstance(x.value, ast.Tuple):
+                                na.extend(x.value.elts)
+                            else:
+                                na.append(x)
+                        n.args = na
+                        nk = []
+                        for k in n.keywords:
+                            if k.arg is None and isinstance(k.value, ast.Dict) and all(isinstance(q, ast.Constant) for q in k.value.keys):
+                                nk.extend(ast.keyword(arg=q.value, value=v) for q, v in zip(k.value.keys, k.value.values))
+                            else:
+                                nk.append(k)
+                        n.keywords = nk
         for st in body:
             for n in ast.walk(st):
                 if not hasattr(n, '_origin'):
@@ -374,7 +470,7 @@ class Normalizer:
     def inline_call(self, call, resolved, ctx, mode, mk=None, target_name=None):
         """mode 'return': splice the body, returns stay; otherwise returns are rewritten with mk"""
         callee, node, receiver = resolved
-        prelude, body = self._body_of(callee, node, call, receiver)
+        prelude, body = self._body_of(callee, node, call, receiver, ctx['locals'])
         if target_name is not None:
             # x = helper(...) where the helper builds and returns one local r: let r be x itself (no `x = r` alias left behind)
             rets = [n for st in body for n in ([st] if isinstance(st, ast.Return) else list(walk_no_nested(st))) if isinstance(n, ast.Return)]
@@ -526,6 +622,11 @@ class Normalizer:
                 try:
                     if e is not None:
                         bound = norm._bind(callee, fnode, node, receiver)
+                        e_bound = {n.arg for n in ast.walk(e) if isinstance(n, ast.arg)} | \
+                            {n.id for n in ast.walk(e) if isinstance(n, ast.Name) and isinstance(n.ctx, ast.Store)}
+                        e_free = {n.id for n in ast.walk(e) if isinstance(n, ast.Name) and isinstance(n.ctx, ast.Load)} - e_bound - set(bound)
+                        if callee.kind != 'closure' and e_free & set(ctx['locals']):
+                            return node
                         names = {n.id for n in ast.walk(e) if isinstance(n, ast.Name) and isinstance(n.ctx, ast.Store)}
                         names |= {n.arg for n in ast.walk(e) if isinstance(n, ast.arg)}
                         if names & set(bound):
@@ -781,6 +882,121 @@ class Normalizer:
         fn.body = do_block(fn.body)
         return changed[0]
 
+    # ------------------------------------------------------------------ N8
+    def table_lookups(self, fn):
+        for n in ast.walk(fn):
+            for c in ast.iter_child_nodes(n):
+                c._p = n
+        changed = [False]
+
+        def table_of(e):
+            if isinstance(e, ast.Dict):
+                d = e
+            elif isinstance(e, ast.Name):
+                stores = [n for n in ast.walk(fn) if isinstance(n, ast.Name) and n.id == e.id and isinstance(n.ctx, (ast.Store, ast.Del))]
+                if len(stores) != 1:
+                    return None
+                p = getattr(stores[0], '_p', None)
+                if not (isinstance(p, ast.Assign) and len(p.targets) == 1 and isinstance(p.value, ast.Dict)):
+                    return None
+                if any(isinstance(n, ast.Subscript) and isinstance(n.ctx, (ast.Store, ast.Del)) and isinstance(n.value, ast.Name) and n.value.id == e.id
+                       for n in ast.walk(fn)):
+                    return None
+                d = p.value
+            else:
+                return None
+            if not d.keys or len(d.keys) > MAX_UNROLL or any(k is None or not isinstance(k, ast.Constant) for k in d.keys):
+                return None
+            return d
+
+        def lookup(v):
+            """-> (table, key expr, default expr or None for KeyError)"""
+            if isinstance(v, ast.Call) and isinstance(v.func, ast.Attribute) and v.func.attr == 'get' and 1 <= len(v.args) <= 2 and not v.keywords:
+                t = table_of(v.func.value)
+                if t is not None:
+                    return t, v.args[0], (v.args[1] if len(v.args) == 2 else ast.Constant(value=None))
+            if isinstance(v, ast.Subscript) and isinstance(v.ctx, ast.Load):
+                t = table_of(v.value)
+                if t is not None:
+                    return t, v.slice, None
+            return None
+
+        def split(st):
+            v = getattr(st, 'value', None)
+            if v is None or not isinstance(st, (ast.Assign, ast.Return)):
+                return [st]
+            lk = lookup(v)
+            if lk is None:
+                return [st]
+            t, key, default = lk
+            pre = []
+            if not is_stable(key):
+                self.counter += 1
+                kn = '__key%d' % self.counter
+                pre.append(ast.Assign(targets=[ast.Name(id=kn, ctx=ast.Store())], value=key))
+                key = ast.Name(id=kn, ctx=ast.Load())
+            if default is None:
+                last = [ast.Raise(exc=ast.Call(func=ast.Name(id='KeyError', ctx=ast.Load()), args=[clone(key)], keywords=[]), cause=None)]
+            else:
+                d_ = clone(st)
+                d_.value = default
+                last = [d_]
+            chain = last
+            for k, val in reversed(list(zip(t.keys, t.values))):
+                b = clone(st)
+                b.value = clone(val)
+                chain = [ast.If(test=ast.Compare(left=clone(key), ops=[ast.Eq()], comparators=[clone(k)]), body=[b], orelse=chain)]
+            out = pre + chain
+            for x in out:
+                ast.copy_location(x, st)
+                ast.fix_missing_locations(x)
+            _relocate(out, st)
+            changed[0] = True
+            return out
+
+        def do_block(stmts):
+            out = []
+            for st in stmts:
+                for f in ('body', 'orelse', 'finalbody'):
+                    if isinstance(getattr(st, f, None), list) and not isinstance(st, ast.ClassDef):
+                        setattr(st, f, do_block(getattr(st, f)))
+                if isinstance(st, ast.Try):
+                    for h in st.handlers:
+                        h.body = do_block(h.body)
+                out.extend(split(st))
+            return out
+        fn.body = do_block(fn.body)
+        return changed[0]
+
+    def drop_dead_closures(self, fn, closures):
+        """a nested function whose every call was inlined is no longer referenced: remove its definition"""
+        refs = {}
+        for n in ast.walk(fn):
+            if isinstance(n, ast.Name) and n.id in closures:
+                refs[n.id] = refs.get(n.id, 0) + 1
+        dead = {k for k in closures if not refs.get(k)}
+        if not dead:
+            return False
+        removed = [False]
+
+        def do_block(stmts):
+            out = []
+            for st in stmts:
+                if isinstance(st, ast.FunctionDef) and st.name in dead:
+                    removed[0] = True
+                    continue
+                for f in ('body', 'orelse', 'finalbody'):
+                    if isinstance(getattr(st, f, None), list) and not isinstance(st, (ast.ClassDef, ast.FunctionDef)):
+                        b = do_block(getattr(st, f))
+                        setattr(st, f, b if (b or f != 'body') else [ast.Pass()])
+                if isinstance(st, ast.Try):
+                    for h in st.handlers:
+                        h.body = do_block(h.body) or [ast.Pass()]
+                out.append(st)
+            return out
+        fn.body = do_block(fn.body) or [ast.Pass()]
+        return removed[0]
+
     # ------------------------------------------------------------------ N3 setattr / getattr
     def attr_forms(self, fn):
         changed = [False]
@@ -885,7 +1101,12 @@ class Normalizer:
                 elif isinstance(fu, ast.Attribute) and isinstance(fu.value, ast.Name) and f.cls is not None and fu.attr.startswith('_') \
                         and fu.attr not in self.protect:
                     maybe_call = True
+            elif isinstance(n, (ast.FunctionDef, ast.AsyncFunctionDef)) and n is not node:
+                maybe_call = True
+        if ast.Dict in kinds:
+            maybe_call = maybe_call or False
         want = {
+            'dict': ast.Dict in kinds,
             'zip': 'zip' in names and ast.For in kinds or 'zip' in names,
             'dictcomp': ast.DictComp in kinds,
             'unroll': ast.For in kinds,
@@ -903,7 +1124,15 @@ class Normalizer:
                 local.add(n.id)
             elif isinstance(n, (ast.FunctionDef, ast.AsyncFunctionDef)) and n is not fn:
                 local.add(n.name)
-        ctx = {'outer': f, 'locals': local, 'stack': frozenset([f.name]), 'used': set(),
+        closures = {}
+        counts = {}
+        for n in walk_no_nested(fn):
+            if isinstance(n, ast.FunctionDef):
+                counts[n.name] = counts.get(n.name, 0) + 1
+                closures[n.name] = n
+        stored_names = {n.id for n in ast.walk(fn) if isinstance(n, ast.Name) and isinstance(n.ctx, (ast.Store, ast.Del))}
+        closures = {k: _Closure(v, f) for k, v in closures.items() if counts[k] == 1 and k not in stored_names and k not in params}
+        ctx = {'outer': f, 'locals': local, 'stack': frozenset([f.name]), 'used': set(), 'closures': closures,
                'self': params[0] if params and f.cls is not None and f.kind in ('method', 'getter', 'setter') else None}
         if ctx['self'] and any(isinstance(n, ast.Name) and n.id == ctx['self'] and isinstance(n.ctx, ast.Store)
                                for n in ast.walk(fn)):
@@ -925,6 +1154,10 @@ class Normalizer:
             ch |= self.append_loops(fn)
         if want['ifexp']:
             ch |= self.ifexp_statements(fn)
+        if ast.Dict in kinds or ch:
+            ch |= self.table_lookups(fn)
+        if closures:
+            ch |= self.drop_dead_closures(fn, closures)
         if not ch:
             return node
         ast.fix_missing_locations(fn)
